@@ -81,7 +81,7 @@ structure Loop where
   pre : List Instr
   body : List Instr
   post : List Instr
-  deriving Repr
+  deriving DecidableEq, Repr
 
 def isCtl : Instr → Bool
   | .label _ => true | .jnz _ => true | _ => false
